@@ -79,6 +79,8 @@ def _rename(obs, prefix):
 def run_functions(funcs: List[str], prefix: str, tier: str, procs: int = 16) -> core.Result:
     _load()
     timeout = 10000 if tier == "quick" else 60000
+    from . import smt_stmt as _ss
+    _ss.CROSSCHECK = (tier == "thorough")   # inherited by the forked workers
     items = [(q, prefix, timeout) for q in funcs]
     if procs > 1 and len(items) > 1:
         ctx = mp.get_context("fork")
